@@ -22,6 +22,7 @@ and after every cancel / withdraw, also those that follow an auto-fill):
   bidvalue_custody          the module account covers less than Σ records + retained fees (beyond what it held at the start) and the
                             cover got worse on this line …
   deposits_drained_by_esm_trigger  … unless the DIFF-free model says `TriggerEsm` paid out on this line (auctions.go:160-173, D35)
+  deposits_drained_after_esm_trigger … or the line CLOSES an auction whose proceeds `TriggerEsm` had partly sent away (same finding)
   limit_own_deposit         an accepted withdraw exceeds the caller's own record / an accepted cancel or withdraw finds no record
   limit_payout              an accepted deposit / cancel / withdraw moved anything but `amount` resp. `amount − fee` of the caller
   fill_bucket_only          a begin-block changed a record outside the auction's premium bucket, raised a record, made one negative,
@@ -134,7 +135,10 @@ def finish (st : St) (seq : String) (m' : JSt) (mOk : Bool) (outcome : String) (
   -- the cause the DIFF-free model names gets its own monitor name: `TriggerEsm` paid the auction's proceeds out again (D35)
   let esmPaid := decide (m'.d.esmOut > st.s.d.esmOut)
   let mCov := if cover < 0 ∧ cover < st.cover then
-      (if diffFree ∧ esmPaid then [s!"MON\t{seq}\tdeposits_drained_by_esm_trigger"] else [s!"MON\t{seq}\tbidvalue_custody"])
+      (if diffFree ∧ esmPaid then [s!"MON\t{seq}\tdeposits_drained_by_esm_trigger"]
+       -- … or a later close pays the whole target although `TriggerEsm` has already sent part of the proceeds away
+       else if diffFree ∧ m'.d.esmOut > 0 ∧ st.s.d.auc.isSome ∧ m'.d.auc.isNone then [s!"MON\t{seq}\tdeposits_drained_after_esm_trigger"]
+       else [s!"MON\t{seq}\tbidvalue_custody"])
     else []
   let st2 := { st1 with prev := some o, prevBook := bk, feesR := feesR, gap := gap, cover := cover }
   let st3 := if diffFree then st2 else adopt st2 o bk
